@@ -34,6 +34,17 @@ def handle : Handler := fun j => do
     let m := obsOfRes (parseQualifiedName s)
     let tags := [if qualifiedB s then "qualified" else "unqualified"]
     pure (verdict (m == o) (judgePQN s o) (pqnJson m) tags)
+  | "charclass" =>
+    -- the exported character classes on a code point: ASCII letters / digits only (a code point ≥ 128 is in no class)
+    let r ← getNat j "r"
+    let fn ← (← j.getObjVal? "fn").getStr?
+    let o ← readObsBool obs
+    let cls : Byte → Bool := match fn with
+      | "letter" => isLetter
+      | "digit" => isDigit
+      | _ => isAlnum
+    let m : Bool := if r < 128 then cls r.toUInt8 else false
+    pure (verdict (o == .ok m) (judgeValidator m o) (resBoolJson (.ok m)) [if r < 128 then "ascii" else "non-ascii", fn])
   | "isq" =>
     let s ← getStr j "s"
     let o ← readObsBool obs
